@@ -424,6 +424,64 @@ func genPair(rng *core.Rand) string {
 	return "pair " + fault + " " + fields(wa, hideA, pa) + " // " + fields(wb, hideB, pb)
 }
 
+// genSite: a Caddyfile site (root *, try_files, file_server) through the real adapter and http app.
+func genSite(rng *core.Rand) string {
+	w := genWorld(rng)
+	for !(w.rootCfg == "" || safeCfg(w.rootCfg)) {
+		w = genWorld(rng)
+	}
+	var hide []string
+	for _, h := range genHide(rng, w) {
+		if safeCfg(h) {
+			hide = append(hide, h)
+		}
+	}
+	var idx []string
+	if rng.Chance(1, 2) {
+		for _, ix := range indexSets[rng.Intn(len(indexSets))] {
+			if safeCfg(ix) {
+				idx = append(idx, ix)
+			}
+		}
+	}
+	var tries []string
+	if rng.Chance(2, 3) {
+		for n := 1 + rng.Intn(3); n > 0; n-- {
+			t := tryPool[rng.Intn(len(tryPool))]
+			if (t.pre == "" || safeCfg(t.pre)) && (t.suf == "" || safeCfg(t.suf)) && t.raw() != "" && !strings.Contains(t.raw(), "?") && !strings.HasPrefix(t.raw(), "=") {
+				u := "0"
+				if t.use {
+					u = "1"
+				}
+				tries = append(tries, core.Hex(t.pre)+":"+u+":"+core.Hex(t.suf))
+			}
+		}
+	}
+	triesF := "."
+	if len(tries) > 0 {
+		triesF = strings.Join(tries, ";")
+	}
+	abs := func(rel string) string {
+		if w.R == "/" {
+			return "/" + rel
+		}
+		return w.R + "/" + rel
+	}
+	// where the Caddyfile lives: usually inside the site (that is why it is hidden automatically)
+	cf := rng.Pick([]string{abs("Caddyfile"), abs("Caddyfile"), "Caddyfile", abs("sub/site.caddy"), "/etc/caddy/Caddyfile", abs("conf/../Caddyfile"), "./Caddyfile"})
+	id := len(w.tree) + 200
+	w.add(resolve(w.cwd, cf), 'f', &id)
+	p := genPath(rng, w)
+	switch rng.Intn(5) {
+	case 0:
+		p = "/" + path.Base(cf)
+	case 1:
+		p = "/"
+	}
+	return fmt.Sprintf("site %s %s %s %s %s %s %s %s %s", core.Hex(w.cwd), core.Hex(w.rootCfg), showList(hide), showList(idx),
+		bits(rng.Chance(1, 2), rng.Chance(1, 4), rng.Chance(3, 4)), triesF, core.Hex(p), w.treeField(), core.Hex(cf))
+}
+
 var queries = []string{"x=1", "a=b&c=%zz", "//evil.example/", "?", "q=/../", "%2f%2fevil", "nex=//evil.example", "a?b", "/", "x=%", "a=1/", "", "sor=name&order=desc"}
 
 var tryPool = []tryFile{
@@ -501,6 +559,9 @@ func (prop) Generate(rng *core.Rand, tier string, emit func(string)) {
 	}
 	for i := 0; i < 7000*scale; i++ {
 		emit(genMatch(rng))
+	}
+	for i := 0; i < 2500*scale; i++ {
+		emit(genSite(rng))
 	}
 	for i := 0; i < 1200*scale; i++ {
 		emit(genPair(rng))
